@@ -58,6 +58,9 @@ inductive Stmt
   | createView (v : Nat)
   | createDatabase (d : Nat)
   | dml (t : Nat) (op : RowOp)                 -- INSERT / UPDATE / DELETE (op ∈ ins, upd, del)
+  | insertMany (t : Nat) (rows : List (Nat × Nat))   -- cursor.executemany(INSERT …, rows): one INSERT per row, each
+                                               -- its own auto-committed statement outside a transaction (rows the
+                                               -- connector cannot bind never reach the engine and are not listed)
   | merge (t : Nat) (src : List (Nat × Nat))   -- WHEN MATCHED THEN UPDATE … WHEN NOT MATCHED THEN INSERT …
   | select
   | begin | commit | rollback
@@ -88,6 +91,7 @@ def calls : Stmt → List Call
   | .createView v => [.w (.mkView v), .q]
   | .createDatabase d => [.w (.attach d), .w (.info d), .q]
   | .dml t op => [.w (.rows t op), .q]
+  | .insertMany t rows => rows.flatMap fun r => [.w (.rows t (.ins r.1 r.2)), .q]
   | .merge t src => [.q, .q, .w (.rows t (.mergeUpd src)), .q, .w (.rows t (.mergeIns src)), .q, .q]
   | .select => [.q]
   | .begin => [.begin]
